@@ -83,6 +83,20 @@ def components_equal(a, b):
     return sorted(map(repr, alpha_component(a))) == sorted(map(repr, alpha_component(b)))
 
 
+def first_kind_only(a, b):
+    """the two components differ only in STANDARD/DAYLIGHT of the observance that stands at the window start
+    with TZOFFSETFROM = TZOFFSETTO (no earlier offset is known there)"""
+    za, zb = alpha_component(a), alpha_component(b)
+    if len(za) != len(zb):
+        return False
+    key = lambda o: (o["local"], o["name"], o["from"], o["to"])   # noqa: E731
+    za, zb = sorted(za, key=key), sorted(zb, key=key)
+    first = min(o["local"][0] for o in za)
+    diff = [(x, y) for x, y in zip(za, zb) if x != y]
+    return bool(diff) and all({k: v for k, v in x.items() if k != "kind"} == {k: v for k, v in y.items() if k != "kind"}
+                              and x["local"][0] == first and x["from"] == x["to"] for x, y in diff)
+
+
 def run(ctx: Ctx):
     rnd = random.Random(ctx.seed)
     # ---- the search on ticks
@@ -156,15 +170,18 @@ def run(ctx: Ctx):
                         if src_at(src, t)[0] == src_at(src, t - 1)[0]:
                             nxt = next((u for u in trs[i + 1:] if src_at(src, u)[0] != src_at(src, u - 1)[0]), w1)
                             nameonly.append([t, nxt])
+                    firstkind = False
                     try:
-                        regen = components_equal(Timezone.from_tzinfo(back, tzid, f, l), comp)
+                        again = Timezone.from_tzinfo(back, tzid, f, l)
+                        regen = components_equal(again, comp)
+                        firstkind = (not regen) and first_kind_only(comp, again)
                     except Exception as e:   # noqa: BLE001
                         if not raised:
                             ctx.fail("P:C13:to_tz-total", {**case, "exc": type(e).__name__}, "regeneration: " + str(e)[:120], None)
                         regen = True        # reported above as a failure of the converted zone object itself
                     ev.append({"tzid": tzid, "z": alpha_component(comp), "w0": w0, "w1": w1, "trs": trs, "nameonly": nameonly, "probes": probes,
-                               "regen": bool(regen), "pytz": prov == "pytz"})
-                    meta.append(case)
+                               "regen": bool(regen), "pytz": prov == "pytz", "firstkind": bool(firstkind)})
+                    meta.append({**case, "firstkind": bool(firstkind)})
     finally:
         tzp.use_default()
     if len(ev) < 20:
